@@ -190,7 +190,7 @@ impl Union<Name> for Name {
     fn union(&self, name: &Name) -> Self {
         let names: HashSet<TrueName> = self.names.union(&name.names).cloned().collect();
         Name {
-            names: if names.iter().any(TrueName::is_null) && names.len() > 1 {
+            names: if names.iter().any(|n| n.is_null() || n.is_nullable()) && names.len() > 1 {
                 names
                     .iter()
                     .filter(|n| !n.is_null())
